@@ -128,8 +128,9 @@ func (rp *RuleParser) ParseVariables(vars string) error {
 				// We are starting a XPATH
 				curr = 3
 				curKey = append(curKey, c)
-			case c == '/':
+			case c == '/' && len(curKey) == 0:
 				// We are starting a regex
+				// (a slash inside a plain key, as in ARGS:a/b, is part of the key)
 				curr = 2
 			case c == '\'':
 				// we start a quoted regex
